@@ -38,7 +38,7 @@ impl Story {
         }; // Divert
         if let Ok(current_divert) = content_obj.clone().into_any().downcast::<Divert>() {
             if current_divert.is_conditional {
-                let o = self.get_state_mut().pop_evaluation_stack();
+                let o = self.get_state_mut().pop_evaluation_stack()?;
                 if !self.is_truthy(o)? {
                     return Ok(true);
                 }
@@ -127,7 +127,7 @@ impl Story {
                     // If the expression turned out to be empty, there may not be
                     // anything on the stack
                     if !self.get_state().evaluation_stack.is_empty() {
-                        let output = self.get_state_mut().pop_evaluation_stack(); // Functions may evaluate to Void, in which case we skip
+                        let output = self.get_state_mut().pop_evaluation_stack()?; // Functions may evaluate to Void, in which case we skip
                         // output
                         if !output.as_ref().as_any().is::<Void>() {
                             // TODO: Should we really always blanket convert to
@@ -155,7 +155,7 @@ impl Story {
                     self.get_state_mut().push_evaluation_stack(obj);
                 }
                 CommandType::PopEvaluatedValue => {
-                    self.get_state_mut().pop_evaluation_stack();
+                    self.get_state_mut().pop_evaluation_stack()?;
                 }
                 CommandType::PopFunction | CommandType::PopTunnel => {
                     let pop_type = if CommandType::PopFunction == eval_command.command_type {
@@ -166,7 +166,7 @@ impl Story {
                     // divert to go to immediately after returning: ->-> target
                     let mut override_tunnel_return_target = None;
                     if pop_type == PushPopType::Tunnel {
-                        let popped = self.get_state_mut().pop_evaluation_stack();
+                        let popped = self.get_state_mut().pop_evaluation_stack()?;
                         if let Some(v) = Value::get_value::<&Path>(popped.as_ref()) {
                             override_tunnel_return_target = Some(v.clone());
                         }
@@ -305,7 +305,7 @@ impl Story {
                         .push_evaluation_stack(Rc::new(Value::new::<i32>(current_turn + 1)));
                 }
                 CommandType::TurnsSince | CommandType::ReadCount => {
-                    let target = self.get_state_mut().pop_evaluation_stack();
+                    let target = self.get_state_mut().pop_evaluation_stack()?;
                     if Value::get_value::<&Path>(target.as_ref()).is_none() {
                         let mut extra_note = "".to_owned();
                         if Value::get_value::<i32>(target.as_ref()).is_some() {
@@ -360,12 +360,12 @@ impl Story {
                 }
                 CommandType::Random => {
                     let mut max_int = None;
-                    let o = self.get_state_mut().pop_evaluation_stack();
+                    let o = self.get_state_mut().pop_evaluation_stack()?;
                     if let Some(v) = Value::get_value::<i32>(o.as_ref()) {
                         max_int = Some(v);
                     }
 
-                    let o = self.get_state_mut().pop_evaluation_stack();
+                    let o = self.get_state_mut().pop_evaluation_stack()?;
                     let mut min_int = None;
                     if let Some(v) = Value::get_value::<i32>(o.as_ref()) {
                         min_int = Some(v);
@@ -411,7 +411,7 @@ impl Story {
                 }
                 CommandType::SeedRandom => {
                     let mut seed: Option<i32> = None;
-                    let o = self.get_state_mut().pop_evaluation_stack();
+                    let o = self.get_state_mut().pop_evaluation_stack()?;
                     if let Some(v) = Value::get_value::<i32>(o.as_ref()) {
                         seed = Some(v);
                     }
@@ -464,12 +464,12 @@ impl Story {
                 CommandType::ListFromInt => {
                     let mut int_val: Option<i32> = None;
                     let mut list_name_val: Option<&String> = None;
-                    let o = self.get_state_mut().pop_evaluation_stack();
+                    let o = self.get_state_mut().pop_evaluation_stack()?;
                     if let Some(v) = Value::get_value::<i32>(o.as_ref()) {
                         int_val = Some(v);
                     }
 
-                    let o = self.get_state_mut().pop_evaluation_stack();
+                    let o = self.get_state_mut().pop_evaluation_stack()?;
                     if let Some(s) = Value::get_value::<&StringValue>(o.as_ref()) {
                         list_name_val = Some(&s.string);
                     }
@@ -508,11 +508,11 @@ impl Story {
                         .push_evaluation_stack(Rc::new(generated_list_value.unwrap()));
                 }
                 CommandType::ListRange => {
-                    let mut p = self.get_state_mut().pop_evaluation_stack();
+                    let mut p = self.get_state_mut().pop_evaluation_stack()?;
                     let max = p.into_any().downcast::<Value>();
-                    p = self.get_state_mut().pop_evaluation_stack();
+                    p = self.get_state_mut().pop_evaluation_stack()?;
                     let min = p.into_any().downcast::<Value>();
-                    p = self.get_state_mut().pop_evaluation_stack();
+                    p = self.get_state_mut().pop_evaluation_stack()?;
                     let target_list = Value::get_value::<&InkList>(p.as_ref());
                     if target_list.is_none() || min.is_err() || max.is_err() {
                         return Err(StoryError::InvalidStoryState(
@@ -527,7 +527,7 @@ impl Story {
                         .push_evaluation_stack(Rc::new(Value::new::<InkList>(result)));
                 }
                 CommandType::ListRandom => {
-                    let o = self.get_state_mut().pop_evaluation_stack();
+                    let o = self.get_state_mut().pop_evaluation_stack()?;
                     let list = Value::get_value::<&InkList>(o.as_ref());
                     if list.is_none() {
                         return Err(StoryError::InvalidStoryState(
@@ -664,7 +664,7 @@ impl Story {
                 )));
             }
 
-            let assigned_val = self.get_state_mut().pop_evaluation_stack(); // When in temporary evaluation, don't create new variables purely
+            let assigned_val = self.get_state_mut().pop_evaluation_stack()?; // When in temporary evaluation, don't create new variables purely
             // within
             // the temporary context, but attempt to create them globally
             // var prioritiseHigherInCallStack = _temporaryEvaluationContainer
@@ -725,7 +725,7 @@ impl Story {
         {
             let func_params = self
                 .get_state_mut()
-                .pop_evaluation_stack_multiple(func.get_number_of_parameters());
+                .pop_evaluation_stack_multiple(func.get_number_of_parameters())?;
             let result = func.call(func_params)?;
             self.get_state_mut().push_evaluation_stack(result);
             return Ok(true);
